@@ -282,6 +282,47 @@ def gen_schedule(seed: int, scenario, j: int) -> Dict[str, Any]:
 
 # ---------------------------------------------------------------------------------
 # C06: connection multigraphs
+def gen_dense_graph(seed: int, tier: str = "quick") -> Dict[str, Any]:
+    """Many simulators, nearly every ordered pair connected by a time-shifted connection, plus a
+    few plain connections that may or may not close a (long) zero-delay ring.  No weak
+    connections, so RM decides by a DFS over the plain hops."""
+    rng = random.Random(sub_seed(seed, "dense"))
+    n = rng.choice([5, 6, 7, 8])
+    groups = [None] + ([0] if rng.random() < 0.3 else [])
+    sims = [{"sid": f"S{i}", "type": "hybrid", "group": rng.randrange(len(groups)), "n_ent": 2,
+             "meta_style": 0, "transport": "gated",
+             "beh": {"bseed": rng.randrange(1 << 30), "p_self": 0.0, "p_out": 0.3, "loop_len": 1}} for i in range(n)]
+    conns = []
+    p_shift = rng.choice([0.6, 0.9, 1.0])
+    for a in range(n):
+        for b in range(n):
+            if rng.random() < p_shift:
+                conns.append({"src": a, "se": 0, "dst": b, "de": 1, "pairs": [["e_out", "t_in"]],
+                              "shift": rng.choice([1, 1, 2]), "weak": False})
+    order = list(range(n))
+    rng.shuffle(order)
+    ring = rng.random() < 0.5
+    m = n if ring else rng.randrange(1, n)
+    for i in range(m if ring else m - 1):
+        a, b = order[i], order[(i + 1) % n]
+        conns.append({"src": a, "se": 1, "dst": b, "de": 0, "pairs": [["e_out", "t_in"]], "shift": 0, "weak": False})
+    for _ in range(rng.choice([0, 1, 2])):      # a few extra forward plain edges (never closing a cycle)
+        i, j = sorted(rng.sample(range(n), 2))
+        conns.append({"src": order[i], "se": 1, "dst": order[j], "de": 0, "pairs": [["p_out", "t_in"]],
+                      "shift": 0, "weak": False})
+    rng.shuffle(conns)
+    # drop duplicates of (src entity, dst entity, dst attr)
+    seen, out = set(), []
+    for c in conns:
+        k = (c["src"], c["se"], c["dst"], c["de"], c["pairs"][0][1])
+        if k not in seen:
+            seen.add(k)
+            out.append(c)
+    cfg = {"cache": True, "lazy": True, "debug": False, "mli": 6,
+           "start_seed": None, "connect_seed": None, "order_seed": None}
+    return {"groups": groups, "sims": sims, "conns": out, "until": 1, "config": cfg}
+
+
 def gen_graph(seed: int, tier: str = "quick") -> Dict[str, Any]:
     rng = random.Random(sub_seed(seed, "graph"))
     feats = {"groups": rng.random() < 0.75, "siblings": rng.random() < 0.6}
